@@ -680,6 +680,99 @@ def run_placeholder(job):
     return out
 
 
+# ---- documented placeholders INSIDE an argument -------------------------------------------------------------------------------
+# Reference manual (custom_target command, generator arguments): the listed strings are replaced wherever they occur in an argument
+# ("--out=@OUTPUT@", "@OUTDIR@/@BASENAME@.h" are the manual's own examples).  Every context built from <= 2 atoms of {'@', 'u', ':'}
+# in front of and behind the placeholder: the literal text must arrive unchanged around the value the placeholder stands for.  The
+# atoms cannot spell a placeholder themselves (names are upper case), so prefix + value + suffix is the only documented reading.
+EMB_ATOMS = ['@', 'u', ':']
+EMB_PH = {'custom_target': ['@OUTPUT@', '@INPUT@', '@OUTDIR@', '@PLAINNAME@', '@BASENAME@', '@OUTPUT0@', '@INPUT0@'],
+          'run_target': ['@SOURCE_ROOT@', '@BUILD_ROOT@'],
+          'generator': ['@OUTPUT@', '@INPUT@', '@PLAINNAME@', '@BASENAME@', '@BUILD_DIR@']}
+
+
+def emb_contexts(n):
+    ctx = ['']
+    for k in range(1, n + 1):
+        ctx += [''.join(t) for t in itertools.product(EMB_ATOMS, repeat=k)]
+    return ctx
+
+
+def run_embedded(job):
+    from verif import mesonproc as mp
+    _, _, where, n = job
+    root = os.path.join(scratch_root(), 'c03em.%d' % os.getpid())
+    shutil.rmtree(root, ignore_errors=True)
+    ctx = emb_contexts(n)
+    cases = []          # (name, placeholder, prefix, suffix)
+    for ph in EMB_PH[where]:
+        for pre in ctx:
+            for suf in ctx:
+                cases.append(('e%d' % len(cases), ph, pre, suf))
+    L = ["project('em', 'c')", "dump = find_program(%s)" % lit(DUMP)]
+    gens = []
+    for name, ph, pre, suf in cases:
+        df = os.path.join(root, 'd', name + '.dump')
+        arg = lit(pre + ph + suf)
+        if where == 'generator':
+            L.append("g_%s = generator(dump, output: '@BASENAME@_%s.c', arguments: ['--dump=%s', 'first', %s, 'last', '@INPUT@'])" % (name, name, df, arg))
+            gens.append("g_%s.process('a.in')" % name)
+        elif where == 'run_target':
+            L.append("run_target('%s', command: [dump, '--dump=%s', 'first', %s, 'last'])" % (name, df, arg))
+        else:
+            L.append("custom_target('%s', input: 'a.in', output: '%s.out', command: [dump, '--dump=%s', 'first', %s, 'last'])" % (name, name, df, arg))
+    if gens:
+        L.append("executable('ex', %s)" % ', '.join(gens))
+    mp.write_tree(root, {'meson.build': '\n'.join(L) + '\n', 'a.in': 'int main(void) { return 0; }\n', 'd/.keep': ''})
+    out = {'viol': [], 'cases': 0, 'by_kind': {}, 'wrapped': 0, 'rsp_edges': 0, 'emb': {'contexts': len(ctx), 'compared': 0, 'literal_at_before': 0}}
+    r = mp.run_meson(['setup', 'b'], root, env=mp.base_env(home=os.path.join(root, 'home')), timeout=600)
+    if r.rc != 0:
+        out['viol'].append(('C03:embedded:%s:setup-fails' % where, 'a %s argument made of a documented placeholder between literal @ u : characters: meson setup fails: %s'
+                            % (where, r.out[-300:].replace('\n', ' | ')), {'embedded': [where, n]}))
+        shutil.rmtree(root, ignore_errors=True)
+        return out
+    bdir = os.path.join(root, 'b')
+    mf = rn.parse_file(os.path.join(bdir, 'build.ninja'))
+    got = {}
+    for e in mf.edges:
+        if e.rule.name != 'CUSTOM_COMMAND':
+            continue
+        m = re.search(r'/d/(e\d+)\.dump', e.command())
+        if not m:
+            continue
+        rn.run_edge(e, bdir)
+        try:
+            args, _ = parse_dump(os.path.join(root, 'd', m.group(1) + '.dump'))
+            got[m.group(1)] = args[args.index(b('first')) + 1:args.index(b('last'))]
+        except Exception:
+            got[m.group(1)] = None
+    # the value a placeholder stands for: what the argument that is exactly the placeholder arrives as (for @OUTPUT@ it names the
+    # statement's own output, so the target's name is put back in)
+    ref = {}
+    for name, ph, pre, suf in cases:
+        if not pre and not suf:
+            v = got.get(name)
+            ref[ph] = (name, v[0] if v and len(v) == 1 else None)
+    for name, ph, pre, suf in cases:
+        rname, rv = ref[ph]
+        rep_ = {'embedded': [where, n], 'given': pre + ph + suf}
+        if rv is None or b(ph) in rv:
+            if not pre and not suf:
+                out['viol'].append(('C03:embedded:%s:not-substituted' % where, '%s argument %r arrives as %r' % (where, ph, got.get(name)), rep_))
+            continue
+        exp = b(pre) + rv.replace(b(rname), b(name)) + b(suf)
+        out['cases'] += 1
+        out['emb']['compared'] += 1
+        out['emb']['literal_at_before'] += '@' in pre
+        if got.get(name) != [exp]:
+            shape = ('at-before' if '@' in pre else 'plain-before') + '+' + ('at-after' if '@' in suf else 'plain-after')
+            out['viol'].append(('C03:embedded:%s:%s' % (where, shape), '%s argument %r: expected %r (the literal text around the value of %s), the process receives %r'
+                                % (where, pre + ph + suf, [exp], ph, got.get(name)), rep_))
+    out['by_kind']['embedded-placeholder-' + where] = out['emb']['compared']
+    shutil.rmtree(root, ignore_errors=True)
+    return out
+
+
 # ---- environment() methods: set / append / prepend against a variable that is already set where the command runs -----------
 # "env values arrive unchanged": what the build definition composes (documented in Reference-manual environment object: append /
 # prepend join the given value with the EXISTING value of the variable, separator ':' unless given) is what the process sees.
@@ -1050,6 +1143,8 @@ def run_any(job):
         return run_envop_project(job)
     if job[1] == 'PH':
         return run_placeholder(job)
+    if job[1] == 'EM':
+        return run_embedded(job)
     return run_lang_project(job) if job[1] == 'LANG' else run_project(job)
 
 
@@ -1061,6 +1156,14 @@ def main():
         d = json.load(open(ck.args.replay))
         g = d.get('given')
         lst = g if isinstance(g, list) else [g]
+        if d.get('embedded'):
+            from verif import mesonproc as mp
+            mp.preimport()
+            res = run_embedded((0, 'EM', d['embedded'][0], d['embedded'][1]))
+            res['viol'] = [v for v in res['viol'] if v[2].get('given') == d.get('given')]
+            for k, w, _ in res['viol']:
+                print(k, w)
+            sys.exit(1 if res['viol'] else 0)
         if d.get('placeholder_position'):
             from verif import mesonproc as mp
             mp.preimport()
@@ -1117,6 +1220,10 @@ def main():
         for where in ('generator', 'custom_target'):
             for ph in PLACEHOLDERS:
                 jobs.append((len(jobs), 'PH', where, ph))
+    if ck.want('embedded'):
+        for where in EMB_PH:
+            jobs.insert(0, (len(jobs), 'EM', where, ck.q(2, 3)))
+    emb = {}
     tot = {'cases': 0, 'projects': 0, 'wrapped_edges': 0, 'rsp_edges': 0}
     hist = {}
     sib = {}
@@ -1134,12 +1241,17 @@ def main():
         for src, dst in ((res.get('hist'), hist), (res.get('sib'), sib)):
             for k, v in (src or {}).items():
                 dst[k] = dst.get(k, 0) + v
+        for k, v in res.get('emb', {}).items():
+            emb[k] = v if k == 'contexts' else emb.get(k, 0) + v
         if 'ph' in res:
             ph_outcomes.setdefault(res['ph'][2], []).append('%s:%s' % res['ph'][:2])
     if ph_outcomes:
         ck.part('placeholders', spellings=len(PLACEHOLDERS), **{k: len(v) for k, v in ph_outcomes.items()})
         if not ck.n_viol:
             ck.require(len(ph_outcomes.get('substituted', [])) >= 12 and ph_outcomes.get('error'), 'placeholder family one-sided: %r' % {k: len(v) for k, v in ph_outcomes.items()})
+    if ck.want('embedded'):
+        ck.part('embedded_placeholders', atoms=EMB_ATOMS, placeholders=EMB_PH, **emb)
+        ck.require((emb.get('compared', 0) > 1500 and emb.get('literal_at_before', 0) > 500) or ck.n_viol, 'embedded placeholder family vacuous: %r' % emb)
     if ck.want('reconf'):
         ck.part('reconfigure_histories', definitions=len(hist_defs(h_ne, h_na)), env_definitions=h_ne, arg_definitions=h_na, steps=h_steps, **hist)
         ck.require(hist.get('histories', 0) == len(hist_defs(h_ne, h_na)) * (len(hist_defs(h_ne, h_na)) - 1) * len(HIST_POSITIONS) or ck.n_viol,
@@ -1164,6 +1276,7 @@ def main():
                    'test args+env x {exitcode,tap}, c_args -D family, c_args neutral, link_args, project/global/project-link args} x {direct, response files forced}; '
                    'plus all ordered pairs of command definitions (env method/separator/unset/values x argument lists) as configure-edit-reconfigure histories of one '
                    'build directory, and all pairs of env definitions on two targets with the same command line; '
+                   'plus every documented placeholder between all contexts of <= 2 (thorough 3) literal atoms of {@,u,:} on either side, in custom_target / run_target / generator arguments; '
                    'evaluations = argument occurrences compared; distinct_nontrivial = positions/modes observed' % (len(strings), n, len(SPECIALS)),
               exhaustive=True)
 
